@@ -18,8 +18,14 @@ fn pick_path(rng: &mut Rng, maxlen: usize) -> Term {
 pub fn op(rng: &mut Rng) -> Term {
     let v = VARS[rng.below(3)];
     let w = VARS[rng.below(3)];
-    match rng.below(13) {
+    match rng.below(14) {
         12 => tag("drop", vec![ts(v)]),
+        13 => {
+            // a value built by `list` (typed data, no string yet), repeated keys likely
+            let n = rng.below(4);
+            let kv: Vec<Term> = (0..2 * n).map(|_| ts(KEYS[rng.below(KEYS.len())])).collect();
+            tag("mklist", vec![ts(v), tl(kv)])
+        }
         0 => {
             let n = rng.below(4);
             let kv: Vec<Term> = (0..2 * n).map(|_| ts(KEYS[rng.below(KEYS.len())])).collect();
@@ -67,6 +73,12 @@ pub fn render(o: &Term) -> String {
         }
         "copy" => format!("set {} ${}", o.nth(1).as_str(), o.nth(2).as_str()),
         "drop" => format!("unset {}", o.nth(1).as_str()),
+        "mklist" => {
+            let mut inner = vec![v("list")];
+            inner.extend(path(o.nth(2)));
+            // the script's own result is not the list, so that nothing asks for its string yet
+            format!("set {} [{}]; string length {{}}", o.nth(1).as_str(), list_val(&inner))
+        }
         "get" | "exists" => {
             let keys: Vec<String> = path(o.nth(2)).iter().map(|k| list_val(&[k.clone()])).collect();
             format!("dict {} ${} {}", o.nth(0).as_str(), o.nth(1).as_str(), keys.join(" "))
@@ -93,7 +105,7 @@ pub fn gen(tier: &str, seed: u64) -> Gen {
         let ops: Vec<Term> = (0..len).map(|_| op(&mut rng)).collect();
         cases.push(mk(ops));
     }
-    (cases, vec![("random operation sequences (create/set/unset/remove/copy/get/exists/keys/values/size and removal of the variable itself, nested paths to depth 3, malformed literals) of length 1-30 over 3 variables".to_string(), n, false)])
+    (cases, vec![("random operation sequences (create/set/unset/remove/copy/get/exists/keys/values/size removal of the variable itself, values built by `list` with repeated keys, nested paths to depth 3, malformed literals) of length 1-30 over 3 variables".to_string(), n, false)])
 }
 
 pub fn run(case: &Term) -> Term {
